@@ -111,6 +111,21 @@ def run_job(ctx, job):
     return ok
 
 
+def run_disc(ctx, job):
+    """Validate the same recording once more under lens DISC (lock discipline of the PRESENT design: observation
+    points passed with the guarding mutex held, lookups consistent with the monitor). A different but correct
+    locking design would fail this without breaking any property, so it is a drift detector, never a verdict."""
+    import copy
+    j = copy.copy(job)
+    j.name = job.name + "-disc"
+    j.consts = dict(job.consts)
+    j.consts["Lens"] = core.tla_set(["DISC"])
+    j.drift = True
+    ev, tr = ctx.events, ctx.traces_ok
+    run_job(ctx, j)
+    ctx.events, ctx.traces_ok = ev, tr     # not counted as coverage of the property
+
+
 def handle_rejection(ctx, job, r):
     if job.drift:
         msg = "spec-drift: %s no longer conforms to %s at trace line %s (not one of the listed properties)" % (job.name, job.module, r["reject_line"])
